@@ -22,8 +22,8 @@ func c19Classify(d string) string {
 
 // c19History replays the calls against the capacity model and, for a real buffer, finalizes: a
 // refused label-referencing call must not have registered a reference.
-func c19History(v asmVariant, capacity int, ops []asmOp) string {
-	e, m, d := runHistory(v, capacity, ops)
+func c19History(v asmVariant, capacity int, ops []asmOp, window bool) string {
+	e, m, d := runHistoryShape(v, capacity, ops, window)
 	if d == "" && capacity >= 0 {
 		if d = checkFinalize(e, m); d != "" {
 			d = "after the history (refusals included): " + d
@@ -37,8 +37,8 @@ func c19Run(h asmHistory) (sig, what string) {
 	if err != nil {
 		return "bad-case", err.Error()
 	}
-	if d := c19History(h.Variant, h.Capacity, ops); d != "" {
-		return c19Classify(d), fmt.Sprintf("%+v capacity %d %v: %s", h.Variant, h.Capacity, h.Ops, d)
+	if d := c19History(h.Variant, h.Capacity, ops, h.Window); d != "" {
+		return c19Classify(d), fmt.Sprintf("%+v capacity %d window=%v %v: %s", h.Variant, h.Capacity, h.Window, h.Ops, d)
 	}
 	return "", ""
 }
@@ -77,9 +77,15 @@ func runC19(r *report.Run) {
 		size := len(mm.bytes)
 		n := 0
 		for capacity := -1; capacity <= size+1; capacity++ {
-			n++
-			if d := c19History(v, capacity, ops); d != "" {
-				return c19Classify(d), fmt.Sprintf("%+v capacity %d %v: %s", v, capacity, historyNames(al, idx), d), n, &asmHistory{Variant: v, Ops: historyNames(al, idx), Capacity: capacity}
+			// both shapes of target: a whole array (len == cap) and a window of a larger one (len < cap)
+			for _, window := range []bool{false, true} {
+				if window && capacity < 0 {
+					continue
+				}
+				n++
+				if d := c19History(v, capacity, ops, window); d != "" {
+					return c19Classify(d), fmt.Sprintf("%+v capacity %d window=%v %v: %s", v, capacity, window, historyNames(al, idx), d), n, &asmHistory{Variant: v, Ops: historyNames(al, idx), Capacity: capacity, Window: window}
+				}
 			}
 		}
 		return "", "", n, nil
@@ -99,8 +105,8 @@ func runC19(r *report.Run) {
 	r.Set("distinct_nontrivial", capCases-hist)
 	r.Set("histories", hist)
 	r.Set("history_x_capacity_cases", capCases)
-	r.Set("bounds", map[string]interface{}{"history_depth": depth, "alphabet": len(asmAlphabet()), "constructor_variants": len(variants), "thorough_second_pass": "all 10 constructor variants at depth 4", "capacities": "every capacity from 0 to program size + 1, plus the nil-target (dry-run) emitter"})
-	r.Set("rule", "every call sequence up to the depth x every buffer capacity from 0 to the program's size + 1 and the nil-target emitter: each call runs on a fresh real Emitter and on the capacity model; a call that does not fit must panic and leave Bytes/Len/PC/Flags/labels unchanged, the history continues after a refusal, a call that fits must behave as in the unbounded model, and the nil-target emitter must report the same PC, labels and flags after every call; non-trivial = capacity below the program size or nil target (at least one call differs from the roomy run)")
+	r.Set("bounds", map[string]interface{}{"history_depth": depth, "alphabet": len(asmAlphabet()), "constructor_variants": len(variants), "thorough_second_pass": "all 10 constructor variants at depth 4", "capacities": "every capacity from 0 to program size + 1, each as a whole array (len == cap) and as a window of a larger canary-filled array (len < cap), plus the nil-target (dry-run) emitter"})
+	r.Set("rule", "every call sequence up to the depth x every buffer capacity from 0 to the program's size + 1 and the nil-target emitter: each call runs on a fresh real Emitter and on the capacity model, the target buffer given once as a whole array and once as a window of a larger array whose bytes outside the window must stay untouched; a call that does not fit must panic and leave Bytes/Len/PC/Flags/labels unchanged, the history continues after a refusal, a call that fits must behave as in the unbounded model, and the nil-target emitter must report the same PC, labels and flags after every call; non-trivial = capacity below the program size or nil target (at least one call differs from the roomy run)")
 	r.Sample(asmHistory{Variant: variants[0], Ops: []string{"LDA_abs($1234)", "JSL($123456)", "NOP"}, Capacity: 5})
 	r.Sample(asmHistory{Variant: variants[1], Ops: []string{"SEP(#$20)", "LDA_imm8_b($7F)", "EmitBytes(17)"}, Capacity: -1})
 	r.Assume("listing lines are not part of the property's list and are not compared here")
